@@ -45,6 +45,7 @@ type loopInfo struct {
 	sLocs   map[string][]string // kind -> head-evaluable written locations
 	sWins   []window
 	kindSet map[string]bool
+	sRoots  map[string][]string // kind -> locations whose whole root object may be written
 	rangePhi *ssa.Phi
 	rangeN   string
 	rangeC   int64
@@ -90,6 +91,10 @@ type Gen struct {
 	inlining []string // keys of functions currently being inlined
 	ninline  int
 	rangeSeen map[string]bool
+	instShifts []string // lengths by which appended suffixes are shifted
+	instPerms  []string // permutation functions introduced by sort.Slice
+	loopEntryEnv map[int]*Env
+	instIdx []string // index terms used by the function (instantiation candidates)
 }
 
 type retInfo struct {
@@ -120,7 +125,13 @@ func (g *Gen) declare(name, sort string) {
 
 func (g *Gen) define(name, sort, term string) {
 	g.declared[name] = true
-	g.lines = append(g.lines, fmt.Sprintf("(define-fun %s () %s %s)", name, sort, term))
+	if sort == "Bool" || sort == "Int" {
+		g.lines = append(g.lines, fmt.Sprintf("(define-fun %s () %s %s)", name, sort, term))
+		return
+	}
+	// non-scalar values (locations, slices, heaps, sequences) are declared constants with a defining
+	// equation: macros would be expanded inside quantifier patterns, where ite/and are not allowed
+	g.lines = append(g.lines, fmt.Sprintf("(declare-const %s %s)", name, sort), fmt.Sprintf("(assert (= %s %s))", name, term))
 }
 
 func (g *Gen) assume(t string) {
@@ -522,9 +533,42 @@ func (g *Gen) oblige(name, kind string, tags []string, guard, formula, desc stri
 		sb.WriteString(l)
 		sb.WriteByte('\n')
 	}
+	goal := formula
+	if strings.Contains(formula, "(forall ((") {
+		if sg, decls, terms, ok := g.skolemiseGoal(formula); ok {
+			// shifted copies of the skolem index (appends) and permutation images (sort)
+			all := append([]string{}, terms...)
+			for _, t := range terms {
+				for _, sh := range g.instShifts {
+					all = append(all, "(- "+t+" "+sh+")")
+				}
+				for _, pf := range g.instPerms {
+					all = append(all, "("+pf+" "+t+")")
+				}
+			}
+			seen := map[string]bool{}
+			for _, t := range all {
+				seen[t] = true
+			}
+			for _, t := range g.instIdx {
+				if !seen[t] {
+					seen[t] = true
+					all = append(all, t)
+				}
+			}
+			all = append(all, "0")
+			for _, d := range decls {
+				sb.WriteString(d + "\n")
+			}
+			for _, l := range g.instantiateContext(all) {
+				sb.WriteString(l + "\n")
+			}
+			goal = sg
+		}
+	}
 	sb.WriteString("; obligation " + name + ": " + strings.ReplaceAll(desc, "\n", " ") + "\n")
 	sb.WriteString("(assert " + guard + ")\n")
-	sb.WriteString("(assert (not " + formula + "))\n")
+	sb.WriteString("(assert (not " + goal + "))\n")
 	sb.WriteString("(check-sat)\n")
 	o.Wit = append([]witness{}, g.wits...)
 	if len(o.Wit) > 0 {
